@@ -19,12 +19,16 @@ REPO_PACKAGES = ("puan", "puan.logic", "puan.logic.plog", "puan.ndarray", "puan.
 
 
 class Repo:
-    def __init__(self, root="/repo", overrides=None):
+    def __init__(self, root="/repo", overrides=None, numpy_mode="real"):
         import numpy
         self.root = root
         self.mods = {}
         self.sources = {}
         self.lib = shim.make_modules(numpy)
+        self.numpy_mode = numpy_mode
+        if numpy_mode == "sym":
+            from .symnd import make_numpy_namespace
+            self.lib["numpy"] = make_numpy_namespace(numpy)
         self.builtins = shim.make_builtins({"__import__": self._import})
         self.overrides = overrides or {}
         self._maz = None
